@@ -33,6 +33,10 @@ MODELS = {
     "joint": {"kind": "joint", "dim": 3, "ns": 2, "noise": "gaussian-diagonal"},
 }
 COHORT = ["a", "b", "c", "d", "e"]
+# other dimensions / numbers of sources, only used by the "plot_dims" part (the number of curves of the convergence plots,
+# hence the page layout of the plot files, depends on them)
+EXTRA_MODELS = {f"logistic_d{d}_s{ns}": {"kind": "logistic", "dim": d, "ns": ns, "noise": "gaussian-diagonal" if d > 1 else "gaussian-scalar"}
+                for d in (1, 2, 3, 4) for ns in range(0, d)}
 
 N_ITER = 6
 # "fit_annealing": the Gibbs fit with simulated annealing switched on (2 plateaus over the first half of the iterations):
@@ -176,7 +180,7 @@ def make_model_and_data(model_name, variant=0, cohort=5):
     from . import models as M
     from leaspy.io.data import Data, Dataset
 
-    spec = dict(MODELS[model_name], variant=variant)
+    spec = dict(MODELS[model_name] if model_name in MODELS else EXTRA_MODELS[model_name], variant=variant)
     if cohort == 5:
         return M.build_model(spec), M.cohort_dataset(COHORT, spec)
     assert cohort == 7
